@@ -63,6 +63,12 @@ RULE = ("every registry stage x >=3 parameter sets x 3 source modes (finite+slac
         "(positional / keyword / defaults) and 4 kinds of head source object, drained stages asked twice past the end, plus 13 "
         "two-source constructors (map / zip / chain / zip_longest objects) over all source lengths 0..2 x 0..2 and random 0..9, "
         "asked up to 14 times with a counter on both sources; "
+        "plus HISTORIES (`hist` entry, harness/props/c02_hist.py): 14 scenarios of stages that are handed a new source / asked for "
+        "a new copy WHILE they are consumed (Streamix.add before, during and after playback with delta 0 / inside / beyond the samples "
+        "taken, int / float / Fraction deltas, keep or not; Stream.append on a partially consumed stream; filters and maverage called "
+        "again; Stream.copy / StreamTeeHub.copy / thub over a partially consumed stream; ControlStream assignments between reads), "
+        "3-20 events, counting / raising (allowance from the Lean spec, raised before every event) / endless / empty sources, the pull "
+        "counter of EVERY source recorded after EVERY event, plus the small universe add-after-a-outputs x delta x length x keep; "
         "plus, outside the cases, the source translator: regenerated Gen/C02Src.lean must equal the committed text and 13 "
         "edited source texts (swapped comparison, changed constant, reordered loops, dropped loop, eager list(), extra read) must "
         "each change the translation or fail to translate; "
@@ -94,6 +100,11 @@ TRUSTED = [
     "objects (next(a) then next(b), nothing remembered after a StopIteration: the first source is read again at every request "
     "past the end), itertools.chain and zip_longest are modelled from their C source; Stream binary operators on two streams, "
     "imap, izip, xzip, append, chain, chain.star, Stream(a, b), izip.longest are measured against them",
+    "histories (`hist` entry, Model/C02Hist.lean): stage-level machines written from the code - the mixer as an abstraction of the "
+    "generator of lazy_stream.py:689-733 with ABSOLUTE event times (sum of the deltas; the harness sends dyadic deltas so that the "
+    "float `count` of the code is exact), `itertools.chain` nesting for append, `itertools.tee` for copy / StreamTeeHub (a copy starts "
+    "where the branch it is taken from stands; every StreamTeeHub copy starts where the hub was made); that `_iters.pop()` / "
+    "`_iters[0]` are untouched branches is read from the code, not proved; a failed `next` on an exhausted source is not a pull",
     "count spellings: Python's round (half to even) for limit / skip, audiolazy's rint (half away from zero) for take / peek, "
     "int(dur + .5) for attack are re-implemented on exact rationals in Lean (pyRound / rintPos / durLen); floats are sent as "
     "their exact rational value, inf / nan as tags with the predicted exception",
